@@ -1,18 +1,148 @@
-(* Properties/C14.v — Hessenberg reduction.  Statements only. *)
-From Coq Require Import ZArith List Reals Lia.
+(* Properties/C14.v — Hessenberg reduction is an orthogonal similarity to upper
+   Hessenberg form.  Statements only; every proof is `exact` of a lemma of
+   Proofs/Hessen.v.  All statements are about the R instance of the model
+   (exact arithmetic, sqrt of Reals); rounding is measured by the
+   correspondence check and the oracle, not proved.
+
+   Vocabulary (Proofs/HessenReflector.v, Proofs/HessenStep.v, Proofs/Hessen.v), all pointwise:
+     Rsum f n        = f 0 + ... + f (n-1)                (recursive finite sum)
+     Rmm n A B i j   = Rsum (fun t => A i t * B t j) n    (matrix product of dimension n)
+     Rtr A i j       = A j i                              (= mtranspose)
+     RI i j          = if i =? j then 1 else 0            (= midentity)
+     meq n A B       = forall i j, i < n -> j < n -> A i j = B i j
+     Rtrace n A      = Rsum (fun i => A i i) n
+     Rfrob2 n A      = Rsum (fun i => Rsum (fun j => A i j * A i j) n) n
+     refl tau v i j  = RI i j - tau * v i * v j           (I - tau v v^T)
+     hess_inv n A k h q = meq n (Rmm n (Rtr q) q) RI /\ meq n (Rmm n (Rmm n q h) (Rtr q)) A /\
+                          (forall i j, j < k -> i < n -> j + 1 < i -> h i j = 0) *)
+From Coq Require Import ZArith List Reals Lra Lia.
 From SV Require Import Base.Num Base.Outcome Base.Mat Model.Hessen Proofs.Hessen.
 Import ListNotations.
 Local Open Scope R_scope.
 
+(* the vocabulary means what the header says *)
+Example c14_vocabulary : forall (A B : mat R) (tau : R) (v : nat -> R),
+  Rmm 2 A B 0%nat 1%nat = 0 + A 0%nat 0%nat * B 0%nat 1%nat + A 0%nat 1%nat * B 1%nat 1%nat /\
+  Rtr A 0%nat 1%nat = A 1%nat 0%nat /\ RI 0%nat 0%nat = 1 /\ RI 0%nat 1%nat = 0 /\
+  Rtrace 2 A = 0 + A 0%nat 0%nat + A 1%nat 1%nat /\
+  Rfrob2 1 A = 0 + (0 + A 0%nat 0%nat * A 0%nat 0%nat) /\
+  refl tau v 0%nat 1%nat = 0 - tau * v 0%nat * v 1%nat.
+Proof. intros. repeat split. Qed.
+
+(* non-square input is rejected *)
 Theorem c14_nonsquare : forall (h w : nat) (A : mat R), h <> w -> hessenberg_hw h w A = Err ENonSquareMatrix.
 Proof. exact Proofs.Hessen.c14_nonsquare. Qed.
 Check c14_nonsquare : forall (h w : nat) (A : mat R), h <> w -> hessenberg_hw h w A = Err ENonSquareMatrix.
 Print Assumptions c14_nonsquare.
 
+(* square input is never rejected (and the model has no panic branch) *)
+Theorem c14_square_ok : forall (n : nat) (A : mat R), exists H Q, hessenberg n A = Ok (H, Q).
+Proof. exact Proofs.Hessen.c14_square_ok. Qed.
+Check c14_square_ok : forall (n : nat) (A : mat R), exists H Q, hessenberg n A = Ok (H, Q).
+Print Assumptions c14_square_ok.
+
+(* sizes <= 2 are returned unchanged with Q = I *)
 Theorem c14_small : forall (n : nat) (A : mat R), (n <= 2)%nat -> hessenberg n A = Ok (A, midentity).
 Proof. exact Proofs.Hessen.c14_small. Qed.
 Check c14_small : forall (n : nat) (A : mat R), (n <= 2)%nat -> hessenberg n A = Ok (A, midentity).
 Print Assumptions c14_small.
 
-Example c14_nonvacuous : hessenberg 2 (fun i j => INR (i + j)) = Ok ((fun i j => INR (i + j)), midentity).
+(* the reflector of iteration k: x = h[k+1.., k] <> 0, v and tau as the code computes them.
+   tau = 2/(v^T v); Hm = I - tau v v^T is symmetric and involutive; Hm x = -+|x| e_1 *)
+Theorem c14_reflector : forall (n k : nat) (h : mat R),
+  let m := (n - (k + 1))%nat in
+  let x := fun i : nat => h (k + 1 + i)%nat k in
+  let nx := sqrt (hh_sqnorm n k h) in
+  let hf := h (k + 1)%nat k in
+  let v := hh_v k h (hh_u1 hf nx) in
+  let tau := hh_tau hf nx in
+  let Hm := refl tau v in
+  nx <> 0 ->
+  nx * nx = Rsum (fun i => x i * x i) m /\
+  tau * Rsum (fun i => v i * v i) m = 2 /\
+  (forall i j, Hm i j = Hm j i) /\
+  meq m (Rmm m Hm Hm) RI /\
+  (hh_sign hf = -1 \/ hh_sign hf = 1) /\
+  Rsum (fun t => Hm 0%nat t * x t) m = hh_sign hf * nx /\
+  (forall i, (0 < i < m)%nat -> Rsum (fun t => Hm i t * x t) m = 0).
+Proof. exact Proofs.Hessen.c14_reflector. Qed.
+Check c14_reflector : forall (n k : nat) (h : mat R),
+  let m := (n - (k + 1))%nat in
+  let x := fun i : nat => h (k + 1 + i)%nat k in
+  let nx := sqrt (hh_sqnorm n k h) in
+  let hf := h (k + 1)%nat k in
+  let v := hh_v k h (hh_u1 hf nx) in
+  let tau := hh_tau hf nx in
+  let Hm := refl tau v in
+  nx <> 0 ->
+  nx * nx = Rsum (fun i => x i * x i) m /\
+  tau * Rsum (fun i => v i * v i) m = 2 /\
+  (forall i j, Hm i j = Hm j i) /\
+  meq m (Rmm m Hm Hm) RI /\
+  (hh_sign hf = -1 \/ hh_sign hf = 1) /\
+  Rsum (fun t => Hm 0%nat t * x t) m = hh_sign hf * nx /\
+  (forall i, (0 < i < m)%nat -> Rsum (fun t => Hm i t * x t) m = 0).
+Print Assumptions c14_reflector.
+
+(* one iteration of the outer loop (reflector applied or zero-norm skip) maps Inv_k to Inv_{k+1};
+   no hypothesis on k is needed *)
+Theorem c14_step : forall (n : nat) (A : mat R) (k : nat) (h q : mat R),
+  hess_inv n A k h q ->
+  hess_inv n A (S k) (fst (hess_step n k (h, q))) (snd (hess_step n k (h, q))).
+Proof. exact Proofs.Hessen.c14_step. Qed.
+Check c14_step : forall (n : nat) (A : mat R) (k : nat) (h q : mat R),
+  hess_inv n A k h q ->
+  hess_inv n A (S k) (fst (hess_step n k (h, q))) (snd (hess_step n k (h, q))).
+Print Assumptions c14_step.
+
+(* Q^T Q = I, Q H Q^T = A, H upper Hessenberg *)
+Theorem c14_main : forall (n : nat) (A H Q : mat R), hessenberg n A = Ok (H, Q) ->
+  meq n (Rmm n (Rtr Q) Q) RI /\
+  meq n (Rmm n (Rmm n Q H) (Rtr Q)) A /\
+  (forall i j, (i < n)%nat -> (j < n)%nat -> (j + 1 < i)%nat -> H i j = 0).
+Proof. exact Proofs.Hessen.c14_main. Qed.
+Check c14_main : forall (n : nat) (A H Q : mat R), hessenberg n A = Ok (H, Q) ->
+  meq n (Rmm n (Rtr Q) Q) RI /\
+  meq n (Rmm n (Rmm n Q H) (Rtr Q)) A /\
+  (forall i j, (i < n)%nat -> (j < n)%nat -> (j + 1 < i)%nat -> H i j = 0).
+Print Assumptions c14_main.
+
+Theorem c14_trace : forall (n : nat) (A H Q : mat R), hessenberg n A = Ok (H, Q) ->
+  Rtrace n H = Rtrace n A.
+Proof. exact Proofs.Hessen.c14_trace. Qed.
+Check c14_trace : forall (n : nat) (A H Q : mat R), hessenberg n A = Ok (H, Q) ->
+  Rtrace n H = Rtrace n A.
+Print Assumptions c14_trace.
+
+(* squared Frobenius norm *)
+Theorem c14_frobenius : forall (n : nat) (A H Q : mat R), hessenberg n A = Ok (H, Q) ->
+  Rfrob2 n H = Rfrob2 n A.
+Proof. exact Proofs.Hessen.c14_frobenius. Qed.
+Check c14_frobenius : forall (n : nat) (A H Q : mat R), hessenberg n A = Ok (H, Q) ->
+  Rfrob2 n H = Rfrob2 n A.
+Print Assumptions c14_frobenius.
+
+(* ---- non-vacuity ---------------------------------------------------------------- *)
+(* c14_small *)
+Example c14_small_nonvacuous : hessenberg 2 (fun i j => INR (i + j)) = Ok ((fun i j => INR (i + j)), midentity).
 Proof. apply Proofs.Hessen.c14_small. lia. Qed.
+
+(* c14_reflector: the hypothesis nx <> 0 holds for the all-ones 3x3 matrix at k = 0 (|x|^2 = 2) *)
+Example c14_reflector_nonvacuous : sqrt (hh_sqnorm 3 0 (fun _ _ => 1)) <> 0.
+Proof.
+  rewrite sqnorm_R. cbn [Nat.sub Nat.add Rsum].
+  apply Rgt_not_eq. apply sqrt_lt_R0. lra.
+Qed.
+
+(* c14_step: the invariant is satisfiable (it holds initially for every n and A) *)
+Example c14_step_nonvacuous : forall (n : nat) (A : mat R), hess_inv n A 0 A midentity.
+Proof. exact Proofs.Hessen.hess_inv_init. Qed.
+
+(* c14_main / c14_trace / c14_frobenius: the hypothesis holds for every square input (c14_square_ok);
+   a 3x3 instance where a reflector really is applied *)
+Example c14_main_nonvacuous : exists H Q, hessenberg 3 (fun _ _ => 1) = Ok (H, Q) /\ H 2%nat 0%nat = 0.
+Proof.
+  destruct (Proofs.Hessen.c14_square_ok 3 (fun _ _ => 1)) as (H & Q & E).
+  exists H, Q. split; [exact E|].
+  destruct (Proofs.Hessen.c14_main 3 _ H Q E) as (_ & _ & Hz). apply Hz; lia.
+Qed.
